@@ -58,6 +58,24 @@ def run_c11(ctx):
             if n:
                 ctx.nontriv("%s:%d:%d" % (ver, s, n))
     ctx.sample({"line": lines[5], "impl": impl[5][:200]})
+    # ---- a clock that reads BEFORE the epoch (no RTC, a broken VM clock): the protocol has no midpoint for it;
+    # the server must refuse to sign rather than sign some other instant as if it were the reading
+    pre = []
+    for ver, w in (("Google", 64), ("RfcDraft13", 32)):
+        for s_, n_ in ((1, 0), (3, 0), (1, 500000000), (3600, 0), (86400, 1), (2**31, 999999999)):
+            pre.append("srep %s -%d %d %s" % (ver, s_, n_, rt.hx(rnd(r, w))))
+    pre_out = vlib.run_impl(pre)
+    ctx.evaluations += len(pre)
+    for line, li in zip(pre, pre_out):
+        rep = {"cmd": "srep", "line": line, "impl": li[:600]}
+        if li.startswith("OK"):
+            srep = bytes.fromhex(li.split("SREP=")[1].split()[0])
+            f = dict(rt.decode(srep) or [])
+            midp = struct.unpack("<Q", f["MIDP"])[0] if len(f.get("MIDP", b"")) == 8 else None
+            ctx.violation("property", "a clock reading before the epoch (%s s) was signed as MIDP=%s" % (line.split()[2], midp), rep)
+        else:
+            ctx.traces_validated += 1
+            ctx.nontriv("pre-epoch:" + " ".join(line.split()[1:4]))
     # ---- running server, bracketed by harness clock readings
     eng = srvmod.Engine(ctx, "C11")
     for b in (1, 8, 64):
